@@ -8,3 +8,10 @@ import EnvVerif.Props.C04
 import EnvVerif.Props.C05
 import EnvVerif.Props.C06
 import EnvVerif.Props.C07
+import EnvVerif.Props.C03
+import EnvVerif.Props.C08
+import EnvVerif.Props.C12
+import EnvVerif.Props.C13
+import EnvVerif.Props.C14
+import EnvVerif.Props.C15
+import EnvVerif.Props.C16
